@@ -45,6 +45,8 @@ class World:
         self.log = []
         self.returned = []
         self.pc = 0
+        self.in_handler = 0
+        self.nested_q = []               # (pid, rc): children that exit while a handler is in its last waitpid()
 
     # --- environment
     def exit_child(self, pid, rc):
@@ -69,7 +71,11 @@ class World:
             return False
         self.tripped = False
         self.log.append(("handler",))
-        self.handler(signal.SIGCHLD, None)
+        self.in_handler += 1
+        try:
+            self.handler(signal.SIGCHLD, None)
+        finally:
+            self.in_handler -= 1
         return True
 
     # --- fake system interface
@@ -93,7 +99,16 @@ class World:
         if self.zombies:
             p, _rc, status = self.zombies.pop(0)
             return p, status
-        if self.running == 0:
+        no_children = self.running == 0
+        if self.in_handler == 1 and self.nested_q:
+            # This call has found nothing more to reap.  Before the handler executes its next bytecode another child
+            # exits and its SIGCHLD is delivered: CPython runs the Python-level handler again, NESTED inside this one.
+            npid, nrc = self.nested_q.pop(0)
+            self.running -= 1
+            self.exit_child(npid, nrc)
+            self.deliver()
+            self.run_handler()
+        if no_children:
             raise ChildProcessError(errno.ECHILD, "No child processes")
         return 0, 0
 
@@ -111,9 +126,15 @@ class World:
         self.log.append(("test",))
         self.pc = 2
         while self.pipe == 0:
+            if not self.schedule and self.nested_q:
+                npid, nrc = self.nested_q.pop(0)          # no handler ran in time: it is an ordinary exit
+                self.schedule = [("exit", npid, nrc), ("deliver",)]
             if not self.schedule:
                 raise Blocked()
             ev = self.schedule.pop(0)
+            if ev[0] == "nested":
+                self.nested_q.append((ev[1], ev[2]))
+                continue
             if ev[0] == "spawn":
                 self.running += 1
             if ev[0] == "exit":
@@ -189,6 +210,8 @@ def run_schedule(schedule):
                 elif ev[0] == "exit":
                     w.running -= 1
                     w.exit_child(ev[1], ev[2])
+                elif ev[0] == "nested":
+                    w.nested_q.append((ev[1], ev[2]))
                 elif ev[0] == "deliver":
                     w.deliver()
                 elif ev[0] == "handler":
@@ -256,6 +279,15 @@ def gen_schedule(rng):
         r = rng.random()
         if r < 0.35 and pending:
             p = pending.pop()
+            if len(pending) >= 1 and rng.random() < 0.25:
+                # p exits while the handler that reaps ANOTHER child is in its last waitpid(): a nested handler run
+                q = pending.pop()
+                sched.append(("nested", p, rng.choice([0, 3, 128 + 9])))
+                sched.append(("exit", q, rng.choice([0, 1])))
+                sched.append(("deliver",))
+                if rng.random() < 0.5:
+                    sched.append(("handler",))
+                continue
             sched.append(("exit", p, rng.choice([0, 0, 1, 3, 127, 128 + 9, 128 + 15, 128 + 11])))
             if rng.random() < 0.6:
                 sched.append(("deliver",))
@@ -288,6 +320,9 @@ def protocol_part(chk, tier):
         [("spawn",), ("wait",), ("exit", 7, 0), ("deliver",)],
         # one SIGCHLD for three exits
         [("spawn",)] * 3 + [("exit", 1, 0), ("exit", 2, 3), ("exit", 3, 137), ("deliver",), ("wait",), ("wait",), ("wait",)],
+        # a second child exits while the handler that reaps the first one is in its last waitpid(): nested handler run
+        [("spawn", 1, True), ("spawn", 2, True), ("wait",), ("nested", 2, 0), ("exit", 1, 0), ("deliver",), ("wait",)],
+        [("spawn", 1, True), ("spawn", 2, True), ("nested", 2, 3), ("exit", 1, 0), ("deliver",), ("handler",), ("wait",), ("wait",)],
         # handler runs before wait() is called; a stale byte stays in the pipe
         [("spawn",), ("spawn",), ("exit", 1, 0), ("deliver",), ("handler",), ("wait",), ("wait",), ("exit", 2, 0), ("deliver",)],
     ] + [gen_schedule(rng) for _ in range(n)]
